@@ -21,15 +21,20 @@ def run_impl(run, docs, mode='v'):
             run.count('impl:isolated-rerun')
     return out
 
-def run_spec(run, lines):
-    rc, out = lib.run_bin(lib.spec_bin('wf'), ['wfdoc'], lines, timeout=2400, shards=lib.NPROC)
+def run_spec(run, lines, area='wf', dom='wfdoc'):
+    rc, out = lib.run_bin(lib.spec_bin(area), [dom], lines, timeout=2400, shards=lib.NPROC)
     if len(out) < len(lines):
         out += ['crash'] * (len(lines) - len(out))
     return out
 
-def spec_verdicts(run, docs, mode='v'):
+def relaxed_verdicts(run, docs):
+    """verdicts of Spec.XmlWFRelaxed (generated from Spec.XmlWF: NameChar* at the Name positions of known
+    finding D04; spec area `wfr`) -- used only to CLASSIFY a failing input, never to judge one"""
+    return spec_verdicts(run, docs, 'v', area='wfr', dom='wfr')
+
+def spec_verdicts(run, docs, mode='v', area='wf', dom='wfdoc'):
     """[(x10, ns, infoset dump or None)] with x10/ns in 'wf' | 'notwf:<code>' | 'unsupported'"""
-    out = run_spec(run, ['%s %s' % (mode, enc(d)) for d in docs])
+    out = run_spec(run, ['%s %s' % (mode, enc(d)) for d in docs], area, dom)
     res = []
     for o in out:
         w = o.split(' ')
@@ -229,6 +234,13 @@ def crafted():
        '<!DOCTYPE a SYSTEM "s"><a>&e;</a>', '<!DOCTYPE a SYSTEM "s"><a x="&e;"/>', '<?xml version="1.0" standalone="no"?><!DOCTYPE a SYSTEM "s"><a>&e;</a>', '<!DOCTYPE a [<!ENTITY e "&e;">]><a/>',
        '<!DOCTYPE a [<!ENTITY e "&f;&f;"><!ENTITY f "v">]><a>&e;</a>', '<!DOCTYPE a [<!ENTITY e "<b/>">]><a>&e;</a>', '<!DOCTYPE a [<!ENTITY e "<b>x</b><!--c--><?p?>&#38;lt;">]><a>&e;</a>',
        '<!DOCTYPE a [<!ENTITY e "&#38;#60;">]><a>&e;</a>', '<!DOCTYPE a [<!ENTITY e "<b>"><!ENTITY u SYSTEM "u" NDATA n>]><a/>', '<!DOCTYPE a [<!ENTITY e "]]&#38;gt;">]><a>&e;</a>')
+    # the same entity referenced twice, once where it is legal and once where it is not, in both orders
+    # (a check that is done once per entity and remembered must remember WHERE it was done)
+    D1 = '<!DOCTYPE a [<!ENTITY e "<b/>"><!ENTITY o "x&e;"><!ENTITY k "x]]>y"><!ENTITY u SYSTEM "u">]>'
+    ill('entityref-twice', D1 + '<a>&e;<c x="&e;"/></a>', D1 + '<a><c x="&e;"/>&e;</a>', D1 + '<a>&e;<c x="&o;"/></a>', D1 + '<a>&o;<c x="&o;"/></a>',
+        D1 + '<a x="&k;">&k;</a>', D1 + '<a>&k;<c x="&k;"/></a>', D1 + '<a>&u;<c x="&u;"/></a>', D1 + '<a>&e;&e;<c x="y" z="&e;"/></a>',
+        D1 + '<a><c>&e;</c><c>&o;</c><c x="&e;"/></a>')
+    ok('entityref-twice', D1 + '<a>&e;&e;&o;</a>', D1 + '<a x="&k;"><c x="&k;"/></a>', D1 + '<a>&u;&u;</a>', D1 + '<a>&e;<c x="&k;"/>&o;</a>')
     # [82] [83] notation declarations
     ill('notationdecl', *['<!DOCTYPE a [<!NOTATION %s>]><a/>' % m for m in ['n', 'n SYSTEM', 'n "s"', 'n PUBLIC', 'n PUBLIC "p""s"', 'n SYSTEM "s" "t"', 'n PUBLIC "{"', 'nSYSTEM "s"', 'n system "s"', 'n SYSTEM "s" NDATA x', 'n PUBLIC "p" NDATA']])
     ok('notationdecl', *['<!DOCTYPE a [<!NOTATION %s>]><a/>' % m for m in ['n SYSTEM "s"', "n SYSTEM 's' ", 'n PUBLIC "p"', 'n PUBLIC "p" "s"', "n PUBLIC 'p' 's'", 'n PUBLIC "p" ', 'n\tPUBLIC\n"p"\r"s"\n']])
@@ -255,6 +267,8 @@ def repair_d04(s):
         nm = m.group(2)
         if nm.startswith('#') and m.group(1) == '&':
             return m.group(0)
+        if nm == '' and (m.group(1).startswith('|') or m.group(1).startswith('NOTATION')):
+            return m.group(0)          # a `|` of a content model, or a group that opens: not a name position
         if nm == '':
             # an empty name is accepted only where white space, "?>", ";", ")" or "|" follows
             nxt = m.string[m.end():m.end() + 2]
@@ -279,12 +293,53 @@ ENTITY_DECL = re.compile(r'<!ENTITY\s+([^\s%]+)\s+(["\'])(.*?)\2', re.S)
 def entity_literals(s):
     return {m.group(1): m.group(3) for m in ENTITY_DECL.finditer(s)}
 
-def has_reference_to_markup_entity(s):
-    """some REFERENCED general entity has a literal that contains a raw '<' or a character
-    reference to '&' (#38) or '<' (#60): its replacement text contains markup or a reference
-    that only exists after the first expansion"""
+def prolog_head(s):
+    """the text up to and including the `]>` that closes the internal subset ('' when there is none);
+    quoted literals and comments inside the subset are skipped, so a `]>` inside a literal does not count"""
+    i = s.find('<!DOCTYPE')
+    if i < 0: return ''
+    j = s.find('[', i)
+    k = s.find('>', i)
+    if j < 0 or (0 <= k < j): return ''
+    p = j + 1
+    while p < len(s):
+        c = s[p]
+        if c in '"\'':
+            q = s.find(c, p + 1)
+            if q < 0: return ''
+            p = q + 1
+        elif s.startswith('<!--', p):
+            q = s.find('-->', p + 4)
+            if q < 0: return ''
+            p = q + 3
+        elif s.startswith('<?', p):
+            q = s.find('?>', p + 2)
+            if q < 0: return ''
+            p = q + 2
+        elif c == ']':
+            m = re.match(r'\][ \t\r\n]*>', s[p:])
+            return s[:p + m.end()] if m else ''
+        else:
+            p += 1
+    return ''
+
+def references_entity_with_markup(s):
+    """C01 / D13: some REFERENCED general entity has a literal that contains a raw '<' or a character
+    reference to '&' (#38) or '<' (#60): its replacement text contains markup (or a reference that only
+    exists after the first expansion), which the implementation exposes as text"""
     ents = entity_literals(s)
     for nm, lit in ents.items():
         if ('<' in lit or re.search(r'&#(x0*(26|3[cC])|0*(38|60));', lit)) and ('&%s;' % nm) in s:
+            return True
+    return False
+
+def has_reference_to_markup_entity(s):
+    """C02 / WF13: some REFERENCED general entity has a literal that contains a character reference to '&' (#38)
+    or '<' (#60): its replacement text contains markup or a reference that only exists after the
+    first expansion (a literal with a raw '<' is checked by the implementation since the repairs
+    c00bacf / ba6ea81, so it is no longer part of this class)"""
+    ents = entity_literals(s)
+    for nm, lit in ents.items():
+        if re.search(r'&#(x0*(26|3[cC])|0*(38|60));', lit) and ('&%s;' % nm) in s:
             return True
     return False
